@@ -682,10 +682,14 @@ func replayShape(c *Ctx, only string) {
 		}, true)
 		c.check(guard, name+":callback-topic-guard", P.ipos(send), "Send is guarded by topicsIntersect(subscription.Topics, m.topics)", "a buffered event is replayed without matching the subscription's topics")
 		// Send's message is the element's message, receiver is the subscription's Client
-		mOK := false
-		if base, ok := isFieldLoad(send.Common().Args[0], "messageWithTopics", "message"); ok && isElemCell(base) {
-			mOK = true
+		mOK := true
+		msrc := sources(send.Common().Args[0])
+		for _, ms := range msrc {
+			if base, ok := isFieldLoad(ms, "messageWithTopics", "message"); !ok || !isElemCell(base) {
+				mOK = false
+			}
 		}
+		mOK = mOK && len(msrc) > 0
 		_, rOK := isFieldLoad(send.Common().Value, "Subscription", "Client")
 		c.check(mOK && rOK, name+":callback-send-args", P.ipos(send), "the element's message is sent to the subscription's client", "the callback does not send the current element's message to the subscription's client")
 		// Send error: stored in the shared err cell, callback returns false on error, true otherwise
@@ -854,21 +858,15 @@ func r09_1(c *Ctx) {
 			return
 		}
 		n++
-		g := false
-		for _, ifi := range ifsIn(cb) {
-			succ, ok := boolEdge(ifi, func(v ssa.Value) bool {
-				if call, ok := isTimeCall(v, "After"); ok {
-					return isExp(call.Call.Args[0]) && isNow(call.Call.Args[1])
-				}
-				if call, ok := isTimeCall(v, "Before"); ok {
-					return isNow(call.Call.Args[0]) && isExp(call.Call.Args[1])
-				}
-				return false
-			})
-			if ok && edgeDominates(ifi.Block(), succ, s.Block()) {
-				g = true
+		g := factGuards(cb, s.Block(), factBool(func(v ssa.Value) bool {
+			if call, ok := isTimeCall(v, "After"); ok {
+				return isExp(call.Call.Args[0]) && isNow(call.Call.Args[1])
 			}
-		}
+			if call, ok := isTimeCall(v, "Before"); ok {
+				return isNow(call.Call.Args[0]) && isExp(call.Call.Args[1])
+			}
+			return false
+		}, true))
 		c.check(g, name+":expiry-guard", P.ipos(s), "Send is dominated by m.exp.After(now)", "an event can be replayed without m.exp.After(now) holding: expired events (now >= Put time + TTL) are replayed")
 	})
 	if n == 0 {
